@@ -31,6 +31,12 @@ theorem C13_normalise (mc mi : Int) (ka ito : Nat) :
 theorem C13_pool_invariant (mc mi : Int) (ka ito : Nat) (tr : List Ev) : Inv (run (init mc mi ka ito) tr) :=
   inv_run mc mi ka ito tr
 
+/-- P's `getConn` is one event — the decision "below the limit, so dial" and the registration of the
+    new connection cannot be separated by another caller — because, in the source read on this run,
+    getConn holds the pool lock for its whole body and the dial it performs (newPersistConn) does
+    not release it: callers that arrive while a dial is in progress wait for the lock. -/
+theorem C13_limit_decisions_are_atomic : Gen.dialUnderPoolLock = true := by decide
+
 /-! Non-vacuity: a run that fills the pool to its limit of 2 and keeps it there. -/
 example : openCount (run (init 2 5 120 480) [.getConn 0 0, .callBegin 0, .getConn 0 1, .callBegin 1, .getConn 0 2, .getConn 0 3]) 0 = 2 := by
   decide
